@@ -251,4 +251,11 @@ silent("C01", "empty-block-skip", E(LOT, "SinkhornVectorizer.transform", "      
 fire("C08", "sparse-kernel-shortcut", "R8.3", E(LOT, "lot_vectors_sparse_internal", "                current_transport_plan = transport_plan(\n                    row_distribution, reference_distribution, cost\n                )\n",
      "                if row_vectors.shape[0] == 1:\n                    current_transport_plan = reference_distribution.reshape(1, -1) * 1.0\n                else:\n                    current_transport_plan = transport_plan(\n                        row_distribution, reference_distribution, cost\n                    )\n"), "one sibling kernel gets a special case the other does not have")
 
+fire("C03", "total-without-mix-weights", "R3.6", E(TOK, "numba_build_skip_grams", "sums = np.array([np.sum(ker) for ker in kernels])", "sums = np.array([float(len(w)) for w in windows])"), "window total counts window positions instead of summing the weighted kernels")
+silent("C03", "total-accumulated-weighted", [E(TOK, "numba_build_skip_grams", "                sums = np.array([np.sum(ker) for ker in kernels])\n                total = np.sum(sums)\n", "                for i in range(n_windows):\n                    total += np.sum(mix_weights[i] * kernel_functions[i](windows[i], *kernel_args[i]))\n")], "total accumulated directly from mix-weighted kernels")
+fire("C05", "bound-numpy-scalar", "R5.5", E(PP, "prune_token_dictionary", "            min_frequency = min_occurrences / total_tokens\n", "            min_frequency = np.clip(min_occurrences / total_tokens, 0.0, 1.0)\n"), "bound becomes a NumPy float64 scalar: comparison leaves float32")
+silent("C05", "bound-float-of-numpy", E(PP, "prune_token_dictionary", "            min_frequency = min_occurrences / total_tokens\n", "            min_frequency = float(np.clip(min_occurrences / total_tokens, 0.0, 1.0))\n"), "float(...) brings the bound back to a Python scalar")
+fire("C06", "add-mutates-left-operand", "R6.4", E(NG, "NgramVectorizer.__add__", "joint_column_index_dictionary = self.column_index_dictionary_.copy()", "joint_column_index_dictionary = self.column_index_dictionary_"), "the merged dictionary is built in the left operand's own dictionary")
+fire("C13", "add-mutates-left-operand", "R13.1", E(NG, "NgramVectorizer.__add__", "joint_column_index_dictionary = self.column_index_dictionary_.copy()", "joint_column_index_dictionary = self.column_index_dictionary_"), "the merged dictionary is built in the left operand's own dictionary")
+
 VARIANTS = V
